@@ -168,10 +168,55 @@ func init() {
 		var order, initOrder []string
 		gated := true
 		initGuard := ""
-		for _, st := range ds.Body.List {
+		// the statements of doSample with calls of other methods of the same receiver (`v.helper(…)` as a statement)
+		// replaced by the helper's statements: the cascade may be written in one method or split into helpers
+		var flat []ast.Stmt
+		var flatten func(list []ast.Stmt, depth int)
+		flatten = func(list []ast.Stmt, depth int) {
+			for _, st := range list {
+				if es, ok := st.(*ast.ExprStmt); ok && depth < 3 {
+					if ce, ok := es.X.(*ast.CallExpr); ok {
+						parts := strings.Split(selPath(ce.Fun), ".")
+						if len(parts) == 2 {
+							if callee := p.funcDecl("kxps", parts[1]); callee != nil {
+								flatten(callee.Body.List, depth+1)
+								continue
+							}
+						}
+					}
+				}
+				flat = append(flat, st)
+			}
+		}
+		flatten(ds.Body.List, 0)
+		bareLast := ""
+		for _, st := range flat {
+			if es, ok := st.(*ast.ExprStmt); ok {
+				// a window consulted by a bare call: allowed for the LAST window only (nothing is gated by it)
+				if ce, ok := es.X.(*ast.CallExpr); ok {
+					parts := strings.Split(selPath(ce.Fun), ".")
+					if len(parts) == 3 && parts[2] == "sample" {
+						order = append(order, parts[1])
+						bareLast = parts[1]
+					}
+				}
+				continue
+			}
 			is, ok := st.(*ast.IfStmt)
 			if !ok {
 				continue
+			}
+			if bareLast != "" {
+				gated = false // something conditional follows an ungated window
+			}
+			// the initialisation may sit in a helper called from the guarded block
+			if len(is.Body.List) > 0 {
+				var body []ast.Stmt
+				saved := flat
+				flat = nil
+				flatten(is.Body.List, 1)
+				body, flat = flat, saved
+				is = &ast.IfStmt{Cond: is.Cond, Body: &ast.BlockStmt{List: body}, Else: is.Else, Init: is.Init}
 			}
 			// initialisation guard: body calls .initialize
 			var inits []string
@@ -210,18 +255,20 @@ func init() {
 				return true
 			})
 		}
-		// a sample call outside an if condition breaks the cascade shape
+		// a sample call anywhere else (not a gate `if !call { return }`, not the bare last one) breaks the cascade shape
 		total := 0
-		ast.Inspect(ds.Body, func(n ast.Node) bool {
-			if ce, ok := n.(*ast.CallExpr); ok {
-				parts := strings.Split(selPath(ce.Fun), ".")
-				if len(parts) == 3 && parts[2] == "sample" {
-					total++
+		for _, st := range flat {
+			ast.Inspect(st, func(n ast.Node) bool {
+				if ce, ok := n.(*ast.CallExpr); ok {
+					parts := strings.Split(selPath(ce.Fun), ".")
+					if len(parts) == 3 && parts[2] == "sample" {
+						total++
+					}
 				}
-			}
-			return true
-		})
-		if total != len(order) {
+				return true
+			})
+		}
+		if total != len(order) || (bareLast != "" && order[len(order)-1] != bareLast) {
 			gated = false
 		}
 		if len(order) == 0 || initGuard == "" {
